@@ -1827,8 +1827,14 @@ func (s suggestionListResult) Len() int {
 }
 func (s suggestionListResult) Swap(i, j int) {
 	s.Options[i], s.Options[j] = s.Options[j], s.Options[i]
+	s.Distances[i], s.Distances[j] = s.Distances[j], s.Distances[i]
 }
 func (s suggestionListResult) Less(i, j int) bool {
+	// options at the same distance go in name order: the candidates usually
+	// come from a map, and the message must not depend on its iteration order
+	if s.Distances[i] == s.Distances[j] {
+		return s.Options[i] < s.Options[j]
+	}
 	return s.Distances[i] < s.Distances[j]
 }
 
